@@ -1,6 +1,7 @@
 (* C07 - text versus binary is decided by binary-data bytes. *)
 From Verif Require Import Base.Bytes Model.Types Model.Text Model.Detect Gen.TreeData Gen.Tables
-  Spec.SpecText Proofs.TextP Proofs.DetectP.
+  Spec.SpecText Proofs.TextP Proofs.DetectP
+  Model.GoRes Gen.SrcFuncs Gen.Tables Proofs.SrcTextP.
 
 (* the implementation's BOM table is the specification's (regenerated data obligation) *)
 Theorem C07_bom_table_is_spec : boms = spec_boms.
@@ -27,3 +28,10 @@ Print Assumptions C07_text_if.
 Example C07_empty_is_text : text_spec [] = true. Proof. reflexivity. Qed.
 Example C07_vt_is_binary : text_spec (b "a" ++ [11%N] ++ b "b") = false. Proof. reflexivity. Qed.
 Example C07_bom_wins : text_spec [255;254;0;0]%N = true. Proof. reflexivity. Qed.
+
+(* the detector the clauses above are about IS the current source: magic.Text as translated on this run (the BOM test
+   through charset.FromBOM read as from_bom over the regenerated table, the loop over every byte of the header with its
+   four-range test) never reaches Panic and returns text_det, for every input *)
+Theorem C07_text_is_the_source : forall raw l, src_Text raw l = Val (text_det boms raw).
+Proof. exact src_Text_ok. Qed.
+Print Assumptions C07_text_is_the_source.
